@@ -163,7 +163,7 @@ Proof.
     pose proof (NA_spec_cmp val_cmp l (abs other)) as HN. destruct (spec_cmp val_cmp l (abs other)).
     inversion H; subst. exact HN.
   - (* cmp *)
-    pose proof (NA_spec_cmp val_cmp l (abs other)) as HN. destruct (spec_cmp val_cmp l (abs other)).
+    pose proof (NA_spec_cmp val_ord l (abs other)) as HN. destruct (spec_cmp val_ord l (abs other)).
     inversion H; subst. exact HN.
   - (* write *)
     pose proof (NA_spec_extend_from_slice N l src nid) as HN.
